@@ -58,7 +58,7 @@ REQUIRED = ["documents_converted", "rows_compared", "nested_splits", "empty_firs
             "documents_with_zero_radius_points", "paths_spelled_through_links_or_relative",
             "prefixes_tried", "prefixes_rejected",
             "corruptions_tried", "corruptions_rejected", "entry_from_stream", "entry_convert",
-            "entry_call", "comment_invariance_checked", "tap_parser_raise"]
+            "entry_call", "entry_stream_file", "entry_stream_reader", "comment_invariance_checked", "tap_parser_raise"]
 FLOOR = {"quick": 1500, "thorough": 30000}
 SHARDS = {"quick": 8, "thorough": 16}
 TIMEOUT = {"quick": 400, "thorough": 3000}
@@ -360,6 +360,17 @@ def convert(entry, text, tmp):
             _PATH_SPELLINGS[0] += 1
         if entry == "convert":
             fn = lambda: NeurolucidaAscToSwc.convert(path)  # noqa: E731
+        elif entry == "stream_file":
+            def fn():  # from_stream on a real file object (read in blocks by the io layer)
+                with open(path, encoding="utf-8") as fh:
+                    return NeurolucidaAscToSwc.from_stream(fh)
+        elif entry == "stream_reader":
+            def fn():  # ... and on the stream the library's own FileReader hands out
+                from swcgeom.utils.file import FileReader
+
+                src_ = path if len(text) % 3 else io.BytesIO(text.encode("utf-8"))
+                with FileReader(src_) as fh:
+                    return NeurolucidaAscToSwc.from_stream(fh)
         else:
             fn = lambda: NeurolucidaAscToSwc()(path)  # noqa: E731
     tree, _ = budget().run(lim, fn)
@@ -407,8 +418,7 @@ def check_doc(ctx, case, tmp):
         ctx.count("documents_with_repeated_points")
     if model.get("zero_radius_points"):
         ctx.count("documents_with_zero_radius_points")
-    ctx.count("entry_" + {"from_stream": "from_stream", "convert": "convert",
-                          "call": "call"}[entry])
+    ctx.count("entry_" + entry)
     try:
         tree = convert(entry, text, tmp)
     except probes.StepBudgetExceeded:
@@ -548,7 +558,8 @@ def run(ctx):
                 shape = "long"
             case = {"kind": "doc", "seed": int(rng.integers(0, 2**31 - 1)), "shape": shape,
                     "rseed": int(rng.integers(0, 2**31 - 1)),
-                    "entry": str(rng.choice(["from_stream", "from_stream", "convert", "call"]))}
+                    "entry": str(rng.choice(["from_stream", "from_stream", "convert", "call",
+                                             "stream_file", "stream_reader"]))}
             if k % 400 == 207:
                 case["dense"] = True
             npts = gen_model(case["seed"], shape)["npoints"]
